@@ -19,11 +19,12 @@ class NextRequest(Request, MutableMapping[str, Any]):
 
 
 def ensure_next(iterable: Iterable[bytes]) -> Iterable[bytes]:
-    first_chunk = iterable.__iter__().__next__()
+    iterator = iterable.__iter__()
+    first_chunk = next(iterator, b"")
 
     def generator():
         yield first_chunk
-        yield from iterable
+        yield from iterator
 
     return generator()
 
